@@ -545,12 +545,13 @@ def c03(prop, tier):
 def c19(prop, tier):
     jobs = [Job("topsort", "./internal/utils", ["prelude_sym.go", "c19_topsort.go"], {"PKGNAME": "utils"}),
             Job("export", "./std/gkr", ["prelude_sym.go", "c19_export.go"], {"PKGNAME": "gkr"}),
-            Job("chunks", "./constraint", ["prelude_sym.go", "c19_chunks.go"], {"PKGNAME": "constraint"})]
+            Job("chunks", "./constraint", ["prelude_sym.go", "c19_chunks.go"], {"PKGNAME": "constraint"}),
+            Job("poseidon2-transcript-binding", "./std/permutation/poseidon2/gkr-poseidon2", ["prelude_sym.go", "c19_poseidon2_binding.go"], {"PKGNAME": "gkr_poseidon2"})]
     for c in (["bn254"] if tier == "quick" else CURVES):
         jobs.append(Job("sumcheck-" + c, "./internal/gkr/" + c, ["prelude_sym.go", "prelude_fr_sym.go", "c19_sumcheck.go"], {"PKGNAME": "gkr", "FRPKG": fr_pkg(c)}))
         jobs.append(Job("solve-hint-" + c, "./constraint/" + c, ["prelude_sym.go", "prelude_fr_sym.go", "c19_solvehint.go"], {"PKGNAME": "cs", "FRPKG": fr_pkg(c), "GKRCURVE": c}))
     return run_property(prop, tier, jobs,
-                        title="C19 (dependency and instance bookkeeping): TopologicalSort / InvertPermutation behind GkrInfo.Compile for every acyclic dependency structure with 1..4 wires and 0..2 symbolic inputs per wire; GkrInfo.Compile + assignment.Permute + Solution.Export and the whole API.Import/Series/Solve/Export flow on a fake parent API for 4 instances and 0..2 dependencies with symbolic (output instance, input instance) pairs: exported values are attributed to the original instances, a dependent input is the named output, sources are solved first, dependencies are listed by increasing input instance, the caller's slices are left alone; GkrCircuit.Chunks (every reading instance starts a chunk); the native solving hint GkrSolveHint on x, y -> x*y with 4 instances and 0..2 dependencies returns the direct evaluation for ALL field values (algebra model; pool memory arbitrary, worker pool sequential); the native sum-check prover/verifier on one multilinear claim with 0..2 variables and symbolic evaluations: no panic, completeness for all values (deterministic opaque transcript, InterpolateOnRange replaced by its specification).",
+                        title="C19 (dependency and instance bookkeeping): TopologicalSort / InvertPermutation behind GkrInfo.Compile for every acyclic dependency structure with 1..4 wires and 0..2 symbolic inputs per wire; GkrInfo.Compile + assignment.Permute + Solution.Export and the whole API.Import/Series/Solve/Export flow on a fake parent API for 4 instances and 0..2 dependencies with symbolic (output instance, input instance) pairs: exported values are attributed to the original instances, a dependent input is the named output, sources are solved first, dependencies are listed by increasing input instance, the caller's slices are left alone; GkrCircuit.Chunks (every reading instance starts a chunk); the native solving hint GkrSolveHint on x, y -> x*y with 4 instances and 0..2 dependencies returns the direct evaluation for ALL field values (algebra model; pool memory arbitrary, worker pool sequential); the native sum-check prover/verifier on one multilinear claim with 0..2 variables and symbolic evaluations: no panic, completeness for all values (deterministic opaque transcript, InterpolateOnRange replaced by its specification); the Poseidon2 compression gadget's use of the GKR API (GkrCompressions.finalize with recording stand-ins for the GKR machinery, 1..4 compressions): exported values are tied to the outputs instance by instance and the challenge that seeds the sum-check transcript is a commitment to every left input, right input and output.",
                         design_ref="DESIGN.md §3 C19",
                         finding_matcher=essa_matcher,
                         assumptions=["acyclic input (stated as the transitive closure not reaching itself)"],
